@@ -1,4 +1,5 @@
 import PycModel.Proofs.StreamLemmas
+import PycModel.Proofs.TuFuel
 import PycModel.Proofs.LexerTotal
 import PycModel.Proofs.StreamRel
 import PycModel.Proofs.ParenExpr
@@ -93,5 +94,17 @@ theorem impl_star_height :
     (Generated.lexCfg.rules.all fun r => decide (r.re.starHeight ≤ starBound r.name)) = true ∧
     Generated.decConst.starHeight ≤ 1 ∧ Generated.strLit.starHeight ≤ 1 ∧
     Generated.linePat.starHeight ≤ 1 ∧ Generated.pragmaPat.starHeight ≤ 1 := by decide
+
+open PycModel.TransUnit PycModel.TuFuel in
+/-- **A whole translation unit is parsed within a recursion budget linear in its size**: for every
+translation unit of the fragment of `C01.wellformed_translation_units_are_accepted`, the parser
+model run with fuel `17 × tokens + 1` (fuel bounds recursion depth plus loop iterations of every
+production) returns the tree - no nesting and no repetition of declarations, parameters,
+statements or expressions makes the needed depth grow faster than the input. -/
+theorem translation_unit_fuel_linear (l : List Ext) (hw : ∀ e ∈ l, WFExt e) :
+    (parseCore (17 * (extsFlat l).length + 1) ((extsFlat l).map (fun t => SEv.tok t.1 t.2) ++ [.eof])).1 =
+      .ast (mk .FileAST none [.list (extsVals 0 l)]) := by
+  rw [extsFlat_length]
+  exact parse_translation_unit l hw _ (extsFuel_linear l hw)
 
 end PycModel.C16
